@@ -288,9 +288,9 @@ def audit_queries(ctx, dn, G, m, tag="", ts=None, full=True):
             d2 = dict(t=t, nbunch=nb)
             known = None if nb is None else [n for n in nb if n in S]
             if m.directed:
-                exp = Counter(S.out_edges(known))
+                exp = Counter(list(S.out_edges(known)))
             else:
-                exp = _ms(S.edges(known), m)
+                exp = _ms(list(S.edges(known)), m)
             lst = G.interactions(nb, t) if t is not None else G.interactions(nb)
             third_ok = all(len(x) == 3 for x in lst) and \
                 (t is None or all(x[2] == {"t": [t]} for x in lst))
@@ -316,7 +316,7 @@ def audit_queries(ctx, dn, G, m, tag="", ts=None, full=True):
                 ctx.expect(tag + "out_interactions(nbunch,t)", Counter((x[0], x[1]) for x in lo), exp, d2)
                 li = G.in_interactions(nb, t)
                 ctx.expect(tag + "in_interactions(nbunch,t)", Counter((x[0], x[1]) for x in li),
-                           Counter(S.in_edges(known)), d2)
+                           Counter(list(S.in_edges(known))), d2)
                 if t is not None:
                     ctx.expect(tag + "in/out_interactions:tuple-shape",
                                all(x[2] == {"t": [t]} for x in lo + li), True, d2)
@@ -418,26 +418,27 @@ def audit_queries(ctx, dn, G, m, tag="", ts=None, full=True):
         ctx.expect(tag + "dn.density(G,t)", dn.density(G, t), dens, detail, deviants=devdens, eq=_close)
 
         if full:
-            # non_interactions: compared as a set of pairs (unordered on DynGraph)
+            # non_interactions: set of pairs (unordered on DynGraph).  For a given t the statement does
+            # not say whether nodes without interactions at t belong to the static graph: both accepted.
             obs = list(dn.non_interactions(G, t))
-            U = m.static(None)
             if m.directed:
                 expn = Counter(nx.non_edges(S))
+                alt = Counter(nx.non_edges(St))
 
                 def devni():
-                    # D-G: t ignored, and only the successors of whichever endpoint is popped first
-                    ns, out = set(U), []
+                    # known finding: only the successors of whichever endpoint is popped first are tested
+                    ns, out = set(G), []
                     while ns:
                         a = ns.pop()
-                        for b in ns - set(U[a]):
+                        for b in ns - set(S[a]):
                             out.append((a, b))
-                    return {"non_interactions-ignores-t": Counter(out)}
-                ctx.expect(tag + "dn.non_interactions(G,t)", Counter(obs), expn, detail, deviants=devni)
+                    return {"digraph-non_interactions-one-direction": Counter(out)}
+                ctx.expect(tag + "dn.non_interactions(G,t)", Counter(obs), expn, detail, deviants=devni, also=(alt,))
             else:
                 expn = Counter(frozenset(p) for p in nx.non_edges(S))
-                devni = (lambda: {"non_interactions-ignores-t": Counter(frozenset(p) for p in nx.non_edges(U))})
+                alt = Counter(frozenset(p) for p in nx.non_edges(St))
                 ctx.expect(tag + "dn.non_interactions(G,t)", Counter(frozenset(p) for p in obs), expn, detail,
-                           deviants=devni)
+                           also=(alt,))
 
     # --- time-independent entry points
     ctx.expect(tag + "dn.is_empty(G)", dn.is_empty(G), m.static(None).number_of_edges() == 0, dict())
